@@ -31,6 +31,7 @@ class NohBlackBoxEos(ExactSolver):
 
         def __init__(self, equation_of_state, initial_conditions = {'density': 1, 'velocity': -1, 'pressure': 0, 'symmetry': 2}, **kwargs): # EoS object (as of now) is designed to be object from the eos_library.py file.
             super(NohBlackBoxEos, self).__init__(**kwargs)
+            self.solver = newton_solver() # one Newton solver per instance: its settings must not leak into other solvers
             self.eos = equation_of_state
 
             if self.geometry not in [1, 2, 3]:
